@@ -338,8 +338,20 @@ class Facts:
         self.raw = d
         # functions the reference tree does not have are inlined at their call sites (analysis/inline.py)
         from . import inline, canon
+        changed = canon.changed_functions(d) if os.environ.get("REPE_NO_CANON") != "1" else set()
+        self.changed_functions = changed
         self.canon_report = canon.apply(d) if os.environ.get("REPE_NO_CANON") != "1" else {"fields": [], "args": [], "fns": []}
         self.inline_report = inline.apply(d) if os.environ.get("REPE_NO_INLINE") != "1" else {"new_functions": [], "inlined": [], "skipped": []}
+        # functions that differ from the reference tree get one more normalisation: intra-procedural jump threading of
+        # known Result/Option variants (error handling folded into one local that is tested later, etc.)
+        self.threaded = {}
+        if changed and os.environ.get("REPE_NO_INLINE") != "1":
+            for p_ in sorted(changed):
+                b_ = d["bodies"].get(p_)
+                if b_ is not None and len(b_["blocks"]) < 3000:
+                    n_ = inline.thread_known_variants(b_)
+                    if n_:
+                        self.threaded[p_] = n_
         self.features = d["features"]
         self.adts = d["adts"]
         self.impls = d["impls"]
